@@ -155,7 +155,7 @@ def on_shape(shape):
 
 
 def groups(tier):
-    opts = ["plain", "inferral", "symmetry", "factory", "factory2", "factory2-symmetry", "finite", "finite-ev", "k", "ku", "iterative", "oneway", "two"]
+    opts = ["plain", "inferral", "symmetry", "factory", "factory2", "factory2-symmetry", "finite", "finite-ev", "k", "ku", "iterative", "oneway", "two", "drop"]
     if tier == "thorough":
         opts += ["inferral-symmetry", "inferral-factory-finite", "k-inferral", "ku-factory", "kk"]
     return e2e.std_groups(tier, opts=opts, rng=False)
